@@ -66,6 +66,7 @@ from betterproto.lib.google.protobuf.compiler import CodeGeneratorRequest
 
 from .. import which_one_of
 from ..compile.importing import (
+    WRAPPER_TYPES,
     get_type_reference,
     parse_source_type_name,
 )
@@ -483,7 +484,9 @@ class FieldCompiler(MessageCompiler):
         match_wrapper = re.match(
             r"\.google\.protobuf\.(.+)Value$", self.proto_obj.type_name
         )
-        if match_wrapper:
+        # Only the wrappers.proto types are wrappers (google.protobuf.EnumValue,
+        # the descriptor of an enum value in type.proto, is not one).
+        if match_wrapper and self.proto_obj.type_name in WRAPPER_TYPES:
             wrapped_type = "TYPE_" + match_wrapper.group(1).upper()
             if hasattr(betterproto, wrapped_type):
                 return f"betterproto.{wrapped_type}"
